@@ -1,6 +1,6 @@
 (* Properties_C10.v — obligations of property C10 (the AF list is exactly the set of valid FM
    codes received in 0A). *)
-Require Import ObsRun Lemmas_AfHist Lemmas_CbAf Lemmas_ObsAf Lemmas_Leaf.
+Require Import ObsRun Lemmas_AfHist Lemmas_CbAf Lemmas_ObsAf Lemmas_Leaf_C10.
 Local Open Scope Z_scope.
 
 (* For EVERY history, after every call, the 26-byte bitmap the AF getter returns is
